@@ -98,6 +98,12 @@ PROPS = {
         'level': 'proof',
         'design_ref': 'DESIGN.md §6 C17',
     },
+    'C15': {
+        'verus': ['cli_options'],
+        'kani': [],
+        'level': 'proof',
+        'design_ref': 'DESIGN.md §5 U14, §6 C15',
+    },
     'C18': {
         'verus': [],
         'kani': ['rng'],
@@ -128,6 +134,11 @@ UNDECIDED = {
     'C11': ["end_loop returning NEXT WITHOUT FOR on a missing loop; next_data_element rebuilding the cursor (closure) - read, not proved"],
     'C16': ["end_loop re-push (f64 arithmetic) - read, not proved", "ValueArray / DimArray internals enter the Arrays wrapper as assumed contracts, themselves checked by Kani (bounded)"],
     'C17': ["the relational claim (identical output/inputs/errors/final state in all four configurations) is concluded from three facts, not proved as a 2-safety property: the switches are read at exactly the censused sites, each site only appends Warning / Trace records, and no statement or expression writes a switch", "that the trace records name exactly the lines execution passes through, and that a warning is issued exactly for never-assigned variables / missing arrays, are not decided (the guard conditions are read, not specified)", "PRINT and user-defined function calls are assumed contracts (they promise not to write the switches)", "TRACE / NOTRACE commands live in maybe_process_command (outside Verus; census only)"],
+    'C15': [
+        "first half of the property (a loaded file lists and runs exactly like the same lines typed in): SourceFileAnalyzer::run (enumerate / zip over the tokenizer) is outside both verifiers - undecided, a change there is not reported by this check; what the CLI relies on from the analyzer (every diagnostic names a line of the file; the store is well formed; into_interpreter = reset_runtime_state + from_program) enters as ASSUMED contracts",
+        "second half: decided as a per-function invariant (the switches of the interpreter in use equal the command-line options after new, load_source_file, show_interpreter_output, break_interpreter, show_error), not as an equality of two process transcripts; StdioInterpreter::run / run_impl (rustyline, ctrlc, channels) are outside Verus - a syntactic census pins the only other place the interpreter is replaced (NEW: args.create_interpreter())",
+        "--skip-check only suppresses the diagnostics loop (proved: the interpreter and options are the same on both paths); the text written to stdout/stderr (colored, format!) is not specified",
+    ],
     'C18': [
         "the call path from the RND( token in an expression to Rng::rnd (expression.rs evaluate_function_call) is assumed",
         "Interpreter::randomize / JsInterpreter::randomize are one-line delegations, read not proved",
